@@ -168,13 +168,15 @@ static int encode_special_opd(struct instr *instrc, int m, int i) {
         instrc->hex.rex |= rex_w;
       reg_r++;
     }
+    FAIL_IF(get_reg(instrc, &instrc->opd[m], reg_r));
     // REX.B / REX.X for an extended register of any width, also as the base
-    // or index of a memory operand
-    if (instrc->opd[m].reg != reg_none && (instrc->opd[m].reg & REG_RB))
+    // or index of a memory operand (after get_reg: a scale*index operand
+    // without base may have been rewritten to [index] or [index+index])
+    if (instrc->opd[m].reg != reg_none && instrc->opd[m].reg != NO_BASE &&
+        (instrc->opd[m].reg & REG_RB))
       instrc->hex.rex |= rex_ + rex_b;
     if (instrc->opd[m].index != reg_none && (instrc->opd[m].index & REG_RB))
       instrc->hex.rex |= rex_ + rex_x;
-    FAIL_IF(get_reg(instrc, &instrc->opd[m], reg_r));
     instrc->rd_offset = (instrc->opd[m].reg & VALUE_MASK);
     // with an index register the r/m field announces the SIB byte
     if (instrc->is_sib)
